@@ -12,60 +12,61 @@ import (
 )
 
 type Obligation struct {
-	Name   string
-	Kind   string
-	Fn     string
-	Goal   Term // must hold (already guarded by reachability)
-	Pos    int  // script position: lines [0,Pos) are the context
-	VC     *VC
-	Src    string // file:line
-	Result string // unsat / sat / unknown / timeout
-	Solver string
-	Time   float64
-	Model  string
-	Expect string // "" normal; "sat" for vacuity canaries (must be satisfiable)
-	Values []string // terms whose model values are requested on sat
+	Name     string
+	Kind     string
+	Fn       string
+	Goal     Term // must hold (already guarded by reachability)
+	Pos      int  // script position: lines [0,Pos) are the context
+	VC       *VC
+	Src      string // file:line
+	Result   string // unsat / sat / unknown / timeout
+	Solver   string
+	Time     float64
+	Model    string
+	Expect   string   // "" normal; "sat" for vacuity canaries (must be satisfiable)
+	Values   []string // terms whose model values are requested on sat
 	replayed bool
-	FC     *FnCtx // the function context that generated it (for counterexample replay)
+	FC       *FnCtx // the function context that generated it (for counterexample replay)
 }
 
 type loopInfo struct {
-	header *ssa.BasicBlock
-	body   map[*ssa.BasicBlock]bool
-	index  int // source-order index within the function
-	spec   *LoopSpec
+	header  *ssa.BasicBlock
+	body    map[*ssa.BasicBlock]bool
+	index   int // source-order index within the function
+	spec    *LoopSpec
 	measure Term
 }
 
 type FnCtx struct {
-	vc     *VC
-	eng    *Engine
-	fn     *ssa.Function
-	pkg    *PkgInfo
-	con    *Contract
-	vals   map[ssa.Value]Val
-	reach  map[*ssa.BasicBlock]Term
-	out    map[*ssa.BasicBlock]*State
-	done   map[*ssa.BasicBlock]bool
-	loops  map[*ssa.BasicBlock]*loopInfo
-	old    *State
-	na0    Term
-	obls   []*Obligation
-	counts map[string]int
-	nowrap bool
-	cur    *ssa.BasicBlock
-	params map[string]Val
-	defers map[*ssa.BasicBlock][]*ssa.Defer
-	depth  int
-	notes  []string
-	unknownCallees map[string]bool
+	vc               *VC
+	eng              *Engine
+	fn               *ssa.Function
+	pkg              *PkgInfo
+	con              *Contract
+	vals             map[ssa.Value]Val
+	reach            map[*ssa.BasicBlock]Term
+	out              map[*ssa.BasicBlock]*State
+	done             map[*ssa.BasicBlock]bool
+	loops            map[*ssa.BasicBlock]*loopInfo
+	old              *State
+	na0              Term
+	obls             []*Obligation
+	counts           map[string]int
+	nowrap           bool
+	cur              *ssa.BasicBlock
+	params           map[string]Val
+	defers           map[*ssa.BasicBlock][]*ssa.Defer
+	lastRole         string // role of the local the last spec lookup resolved to (rebind.go)
+	depth            int
+	notes            []string
+	unknownCallees   map[string]bool
 	lemmaBeingProved string
-	loopAny bool
-	retVals []retInfo // for inlining
-	inline bool
-	frameParent *FnCtx
-	iters map[ssa.Value]*iterInfo
-	pureAssumed map[string]bool
+	loopAny          bool
+	retVals          []retInfo // for inlining
+	inline           bool
+	frameParent      *FnCtx
+	iters            map[ssa.Value]*iterInfo
+	pureAssumed      map[string]bool
 }
 
 type retInfo struct {
